@@ -58,14 +58,19 @@ def payloadIsArchive (variant : Nat) : Bool := decompressIdentity.contains varia
 def itemsOf (es : List Acc.FileEntry) (a : Bytes) : List Item × Bool :=
   collect es (Cpio.iterate a (es.map (·.path)) (es.map (·.size)))
 
-/-- everything `extract` reads. `archive?` replaces the payload when it is compressed (the driver has
-no decompressors); `none` as result = the model cannot predict (compressed payload without archive). -/
-def extractInput (p : Package) (archive? : Option Bytes) : Option Input :=
+/-- everything `extract` reads. `archive?` replaces the payload when it is compressed (the driver has no
+decompressors): the bytes the STREAMING decoder hands out before it stops — the whole archive for an intact payload, a
+prefix of it for a damaged or truncated one (`C07.files_chunked_prefix`: the items then are an initial segment of the
+intact package's items, followed by an error); `none` as result = the model cannot predict (compressed payload without
+archive). `supported` = the codecs compiled into the library (`decompress_stream`'s feature-gated arms): for any other
+known compressor `files()` fails with `UnsupportedCompressorType`. -/
+def extractInput (p : Package) (archive? : Option Bytes) (supported : Nat → Bool := fun _ => true) : Option Input :=
   let dirnames := (getStringArray p.md.header IndexTag.RPMTAG_DIRNAMES).toOption
   match Acc.getFileEntries p.md.signature p.md.header with
   | .ok es =>
     match Acc.getPayloadCompressorVariant p.md.header with
     | .ok comp =>
+      if !supported comp then some ⟨dirnames, [], false⟩ else
       match (if payloadIsArchive comp then some p.content else archive?) with
       | none => none
       | some a => let r := itemsOf es a; some ⟨dirnames, r.1, r.2⟩
